@@ -48,6 +48,52 @@ TABLE = {
     "S3-C16-merge-cap": ("C16", "independent sub-agent (round 3)",
         "four or more compressed operands merged by union over one index",
         "C16 work-depends-on-dimension (wide-merge catalogue group, added while the seed was being confirmed)"),
+    "S4-C01-literal-terminal-flag": ("C01", "independent sub-agent (round 4)",
+        "a compressed output level; an additive bare-literal term; a coordinate where the sparse operands of the merged term are absent",
+        "C01 wrong-value (machine; literal group taken over its whole format space)"),
+    "S4-C02-pos-write-guard": ("C02", "independent sub-agent (round 4)",
+        "output with compressed -> dense -> compressed levels (sds...); a stored upper coordinate starting with empty fibres after an earlier stored entry",
+        "C02 (pipeline target sweep: every target format of the order-3 copy)"),
+    "S4-C03-outer-flag-on-fill": ("C03", "independent sub-agent (round 4)",
+        "ssd-like output (two compressed levels above a trailing dense one); a fill arm running in a slice with no real entry below it (dense level above a compressed one in the operand, empty fibre)",
+        "missed at first (the quick target sweep used one operand format, d0s1s2, whose fibres are never empty); C03 phantom after the sweep got operand formats with a dense level above a compressed one"),
+    "S4-C04-sparse-walk-assemble": ("C04", "independent sub-agent (round 4)",
+        "separate assemble; >= 2 consecutive dense output levels directly above a compressed one (dds, sdds...); operand compressed at the upper dense level's index; an empty slice",
+        "C04 unreadable / assemble-structure-differs (pos entries left uninitialised)"),
+    "S4-C05-bucket-no-sparse-layer": ("C05", "independent sub-agent (round 4)",
+        "separate assemble + compute; compressed output level; a terminal under a node that already receives a bucket (sum of contractions / nested contractions)",
+        "C05 fault-oob-write-in-compute through the assemble/compute histories now shared with C04"),
+    "S4-C06-llvm-fast-flags": ("C06", "independent sub-agent (round 4)",
+        "two or more non-dyadic literals in one associative chain with a tensor operand; non-integer values (LLVM folds the constants, C and the IR round twice)",
+        "C06 c-vs-llvm bits differ (inexact-literal group, arbitrary-double stage)"),
+    "S4-C07-counting-loop": ("C07", "independent sub-agent (round 4)",
+        "IR-level program: while (i < n) { i = i + 1 } entered with i > n, i read afterwards",
+        "C07 memory-differs (counted-loop statement trees of IRGen.tla; the pure counting-loop idioms were added while the seed was being confirmed)"),
+    "S4-C08-trailing-target-no-output": ("C08", "independent sub-agent (round 4)",
+        "a trailing target index that the right-hand side (or one whole additive term) does not mention, stored in a compressed output level",
+        "C08 undocumented-outcome NotImplementedError (exhaustive small pool of Problems.tla)"),
+    "S4-C09-dok-cache-alias": ("C09", "independent sub-agent (round 4)",
+        "to_dok(explicit_zeros=True), then editing the returned dict, then reading the same tensor again",
+        "missed by construction before (no accessor result was ever edited); C09 after the aliasing check (every accessor result is scrambled, then everything is read again)"),
+    "S4-C10-zero-size-unset": ("C10", "independent sub-agent (round 4)",
+        "a shared index whose first-visited participant has size 0 and a later one a non-zero size",
+        "missed by construction before (dimension faults were +-1 on sizes >= 2); C10 after the dimzero fault was added to CallProtocol.tla"),
+    "S4-C11-input-ordering-inverse": ("C11", "independent sub-agent (round 4)",
+        "an operand of order >= 3 whose mode ordering is a 3-cycle (not its own inverse)", "C11 / C01 wrong-value"),
+    "S4-C12-order-zero-falsy": ("C12", "independent sub-agent (round 4)",
+        "a tensor first referenced with zero indexes and later with one or more (B() + B(i))", "C12 invalid-assignment-accepted"),
+    "S4-C13-pos-shrink-live": ("C13", "independent sub-agent (round 4)",
+        "sds-like output with enough stored entries that the shrunk pos block is smaller than what is read back",
+        "C02 unreadable-pos-short / C05 handed-back-pos-short (the array is too short for the structure it describes); C13's own histories use outputs of order <= 1"),
+    "S4-C14-recent-request-memo": ("C14", "independent sub-agent (round 4)",
+        "two threads calling evaluate / operators with different requests, at least one repeating its own request, a GIL switch inside the memo's key computation",
+        "C14 operator hammer rounds (different requests repeated by 16 threads at a 1 us switch interval)"),
+    "S4-C15-evaluate-memo-key": ("C15", "independent sub-agent (round 4)",
+        "the same assignment and output format evaluated twice with the formats of two same-order inputs exchanged and the keywords in the other order",
+        "missed by construction before; C15 result-depends-on-cache after the exchanged-formats scenario was added"),
+    "S4-C16-bucket-contraction-dense": ("C16", "independent sub-agent (round 4)",
+        "a second contraction nested inside a bucket that still holds a dense output layer; that index compressed in every operand",
+        "C16 work-depends-on-dimension"),
 }
 
 
